@@ -125,7 +125,8 @@ function judge(c, resps) {
   return { viol, obs: stable(got) + '|' + errors.length, clauses: ['emits', 'resolvable-without-error'] };
 }
 
-function* nameSets() {
+function* nameSets(deep) {
+  if (deep) { yield [0, 1, 2, 3]; yield [3, 2, 1, 0]; yield [1, 3, 0, 2]; for (let a = 0; a < NAMES.length; a++) for (let b = 0; b < NAMES.length; b++) for (let d = 0; d < NAMES.length; d++) if (a !== b && b !== d && a !== d && !(a < b && b < d)) yield [a, b, d]; }
   for (let a = 0; a < NAMES.length; a++) { yield [a]; for (let b = 0; b < NAMES.length; b++) if (b !== a) { yield [a, b]; for (let d = 0; d < NAMES.length; d++) if (d !== a && d !== b && a < b && b < d) yield [a, b, d]; } }
 }
 
@@ -135,8 +136,7 @@ function spaces(tier) {
       name: 'E:event-sets×encodings',
       bounds: { names: NAMES, max_names: 3, encodings: ENC_KEYS, setup_forms: Object.keys(SETUPS), positions: ['before', 'after'], scopes: ['module', 'function declaration', 'arrow', 'function expression', 'object method', 'IIFE', 'mixed (parents at module level)'] },
       *gen() {
-        for (const names of nameSets()) for (const enc of ENC_KEYS) for (const setup of Object.keys(SETUPS)) for (const scope of ['module', 'local', 'localArrow', 'localFnExpr', 'localMethod', 'localIife', 'mixed', 'twice', 'shadowed', 'shadowedAfter']) for (const pos of (['mixed', 'twice', 'shadowed', 'shadowedAfter'].includes(scope) ? ['before'] : ['before', 'after'])) {
-          if (tier !== 'thorough' && setup !== 'arrow' && !(scope === 'module' && pos === 'before')) continue;
+        for (const names of nameSets(tier === 'thorough')) for (const enc of ENC_KEYS) for (const setup of Object.keys(SETUPS)) for (const scope of ['module', 'local', 'localArrow', 'localFnExpr', 'localMethod', 'localIife', 'mixed', 'twice', 'shadowed', 'shadowedAfter']) for (const pos of (['mixed', 'twice', 'shadowed', 'shadowedAfter'].includes(scope) ? ['before'] : ['before', 'after'])) {
           yield { sp: 'E', names, enc, setup, scope, pos };
         }
       },
